@@ -11,6 +11,7 @@ mod c11;
 mod c12;
 mod c17;
 mod fmt;
+mod pool;
 
 fn main() {
     let args: Vec<String> = std::env::args().collect();
@@ -25,6 +26,9 @@ fn main() {
         "c11" => c11::run,
         "c12" => c12::run,
         "fmt" => fmt::run,
+        "pool" => pool::run,
+        "lex" => pool::run_lex,
+        "nodes" => pool::run_nodes,
         "c17" => c17::run,
         _ => {
             eprintln!("unknown subcommand {sub}");
@@ -32,8 +36,13 @@ fn main() {
         }
     };
     let stdin = io::stdin();
-    let stdout = io::stdout();
-    let mut out = io::BufWriter::new(stdout.lock());
+    // results go to the fd named by VH_OUT_FD if set (so that anything rustfmt itself
+    // prints to stdout cannot corrupt the protocol), else to stdout
+    let sink: Box<dyn Write> = match std::env::var("VH_OUT_FD") {
+        Ok(fd) => Box::new(std::fs::OpenOptions::new().write(true).open(format!("/proc/self/fd/{fd}")).expect("VH_OUT_FD")),
+        Err(_) => Box::new(io::stdout()),
+    };
+    let mut out = io::LineWriter::new(sink);
     for line in stdin.lock().lines() {
         let line = line.unwrap();
         if line.trim().is_empty() {
